@@ -1,20 +1,25 @@
 """C07 — array data lives while referenced; only copy-construction and link share it.
 
-proof:  lean/AdeptProofs/Props/C07.lean (invariant of the storage life-cycle model for ALL finite histories:
-        exact reference counts, no dangling owner, exactly-once release, no leak, who shares with whom,
-        ownership and independence after `=`)
-tie:    hand-written model AdeptModel/Storage.lean  <->  Storage.h add_link/remove_link, Array constructors,
-        destructor, link, clear, resize, copy and move assignment, soft_link, slices of Array and FixedArray.
+proof:  lean/AdeptProofs/Props/C07.lean (invariant of the storage life-cycle model for ALL finite histories, generic over
+        the kind of object: exact reference counts, no dangling owner, exactly-once release, gradients registered exactly
+        while active data live, no leak, who shares with whom, ownership and independence after `=`, a REJECTED operation
+        is the identity, temporaries / by-value parameters net out to nothing)
+tie:    hand-written model AdeptModel/Storage.lean  <->  Storage.h add_link/remove_link, the constructors, destructor,
+        link, clear, resize, copy and move assignment, swap, soft_link and every view-returning member function of
+        Array<1>, Array<2>, active Array<1> and SpecialMatrix (symmetric, tridiagonal), slices of FixedArray.
         harness/drv_storage.cpp interprets the same histories with REAL objects and real moves
-        (std::move, functions returning by value, slices and external-memory arrays as rvalues); after every step
-        n_storage_objects(), storage()->n_links(), the allocation and offset every data() points at, extents and
-        all values are compared exactly with the model.  ASan/LSan/UBSan on.
+        (std::move, noinline functions taking and returning arrays by value, slices and external-memory arrays as
+        rvalues, std::vector growth, std::swap); after every step n_storage_objects(), n_gradients_registered(),
+        storage()->n_links(), the allocation and offset every data() points at, extents, strides and all values are
+        compared exactly with the model.  ASan/LSan/UBSan on.
 oracle: shadow ownership table built here from the implementation's output alone (does not use the model):
         reference counts equal the number of live referrers, created-deleted equals the number of storages still
-        referred to, nobody with a storage points at released memory (liveness asked from ASan), constructors /
-        link / slices share exactly the source's allocation, `=` leaves the target in place or in an unshared
-        storage of its own with the source's values, a write only shows through objects of the written allocation,
-        a thrown exception changes nothing, the final count is 0.
+        referred to, gradients registered equal the sizes of the active storages referred to, nobody with a storage
+        points at released memory (liveness asked from ASan) or outside its allocation, constructors / link / views
+        share exactly the source's allocation with the geometry re-derived here from the request, `=` leaves the
+        target in place or in an unshared storage of its own with the source's values, a write only shows through
+        objects of the written allocation, a request that must be rejected IS rejected with the documented exception
+        and a thrown exception changes nothing (no count, no object, no value), the final count is 0.
 """
 import os, re, json
 from concurrent.futures import ProcessPoolExecutor
@@ -23,43 +28,769 @@ import vbuild, vcheck
 LEVEL = "proof"
 NS = "Adept.Storage."
 REQUIRED = ["C07_inv_init", "C07_inv_step", "C07_inv_reachable", "C07_inv_meaning", "C07_freed_once", "C07_no_storage_fault", "C07_no_leak",
-            "C07_shares_exactly", "C07_soft_external_hold_nothing", "C07_assign_owns", "C07_assign_independent"]
-MODEL_FILE = "AdeptModel/Storage.lean <-> Storage.h / Array.h life cycle (ctor, dtor, link, clear, resize, =, move =)"
+            "C07_gradients_exact", "C07_rejected_is_identity", "C07_rejected_op_erasable", "C07_view_ctor_rejects_first",
+            "C07_shares_exactly", "C07_temporary_roundtrip", "C07_swap_exchanges", "C07_soft_external_hold_nothing",
+            "C07_assign_owns", "C07_assign_no_new_alias", "C07_assign_independent"]
+MODEL_FILE = ("AdeptModel/Storage.lean <-> Storage.h / Array.h / SpecialMatrix.h life cycle (ctor, dtor, views, link, clear, "
+              "resize, =, move =, swap)")
 SRC = os.path.join(vbuild.VERIF, "harness", "drv_storage.cpp")
 
-ASSIGN_OPS = ("ac", "am", "amfn", "amdup", "acsl", "amsl", "amext", "amfix", "amfresh")
-CREATE_OPS = ("new", "newd", "ext", "fsl", "cp", "cpc", "cpm", "sl", "soft")
+VIEW_FNS = {"sl": 3, "row": 4, "col": 4, "sub": 6, "idx": 1, "tr": 0, "diag": 1, "sod": 2, "rsh": 2, "perm": 2}
+FORMS = ("", "link", "ac", "am", "fn", "fnv", "amfn", "amfnv")
+KIND_SFX = {"": "v", "m": "m", "a": "a", "s": "s", "t": "t"}
+SFX_OF = {"v": "", "m": "m", "a": "a", "s": "s", "t": "t"}
+PLAIN_ASSIGN = ("ac", "am", "amfn", "amdup")
+OTHER_ASSIGN = ("amext", "amextfn", "amfix", "amfresh", "amsum")
+
+
+def split_cmd(c):
+    """-> (form, fn) when c is a view command"""
+    for f in FORMS:
+        if c.startswith(f) and c[len(f):] in VIEW_FNS:
+            return f, c[len(f):]
+    return None
+
+
+def classify(c):
+    """coarse class of an op name: ('view', form, fn) | ('new', kind) | ('newd', kind) | ('newfn', kind) | (c,)"""
+    sc = split_cmd(c)
+    if sc:
+        return ("view",) + sc
+    if c == "newm":
+        return ("newm",)
+    if c.startswith("newd") and c[4:] in KIND_SFX:
+        return ("newd", KIND_SFX[c[4:]])
+    if c.startswith("newfn") and c[5:] in KIND_SFX:
+        return ("newfn", KIND_SFX[c[5:]])
+    if c.startswith("new") and c[3:] in KIND_SFX:
+        return ("new", KIND_SFX[c[3:]])
+    return (c,)
+
+
+def is_assign(c):
+    cl = classify(c)
+    return c in PLAIN_ASSIGN or c in OTHER_ASSIGN or (cl[0] == "view" and cl[1] in ("ac", "am", "amfn", "amfnv"))
+
+
+def is_create(c):
+    cl = classify(c)
+    return (cl[0] in ("new", "newd", "newfn", "newm") or c in ("ext", "extfn", "fsl", "cp", "cpc", "cpm", "soft", "sum", "vpush")
+            or (cl[0] == "view" and cl[1] in ("", "fn", "fnv")))
+
+
+# ------------------------------------------------------------------ geometry (independent of the model and of the harness)
+def tdiv(a, b):
+    q = abs(a) // abs(b)
+    return q if (a >= 0) == (b >= 0) else -q
+
+
+def rel_cells(kind, d0, d1, s0, s1):
+    if kind in "va":
+        return [k * s0 for k in range(d0)]
+    if kind == "m":
+        return [i * s0 + j * s1 for i in range(d0) for j in range(d1)]
+    if kind == "s":
+        return [i * s0 + j for i in range(d0) for j in range(i + 1)]
+    return [i * s0 + j for i in range(d0) for j in range(d0) if abs(i - j) <= 1]
+
+
+def extent(kind, d0, d1, s0, s1):
+    if kind in "va":
+        return 0 if d0 == 0 else (d0 - 1) * s0 + 1
+    if kind == "m":
+        return 0 if d0 == 0 or d1 == 0 else (d0 - 1) * s0 + (d1 - 1) * s1 + 1
+    if kind == "s":
+        return 0 if d0 == 0 else (d0 - 1) * s0 + d0
+    return 0 if d0 == 0 else (d0 - 1) * (s0 + 1) + 1
+
+
+def packed(kind, n0, n1):
+    """(d0, d1, s0, s1, volume) of a freshly resized object"""
+    if kind in "va":
+        return n0, 0, 1, 0, n0
+    if kind == "m":
+        return n0, n1, n1, 1, n0 * n1
+    if kind == "s":
+        return n0, 0, n0, 0, n0 * n0
+    return n0, 0, 2, 0, (n0 - 1) * 3 + 1
+
+
+def resize_outcome(kind, strict, n0, n1):
+    """'exc' | 'clear' | (n0, n1): what resize must do (documented behaviour, walked as the C++ does)"""
+    if kind in "va":
+        return "exc" if n0 < 0 else "clear" if n0 == 0 else (n0, 0)
+    if kind == "m":
+        if strict and (n0 < 0 or n1 < 0):
+            return "exc"
+        for n in (n0, n1):
+            if n < 0:
+                return "exc"
+            if n == 0:
+                return "clear"
+        return (n0, n1)
+    if not strict and n0 != n1:
+        return "exc"
+    return "exc" if n0 < 0 else "clear" if n0 == 0 else (n0, n0)
+
+
+def dims1(kind, n):
+    return (n, 2) if kind == "m" else (n, 0)
+
+
+def expected_view(b, fn, a):
+    """what the request must give, from the source's observed geometry:
+    ('exc', class) | ('empty', kind) | ('ok', kind, delta, d0, d1, s0, s1)"""
+    k = b.kind
+
+    def rng(lo, hi, st):
+        return tdiv(hi + st - lo, st)
+
+    if fn == "sl":
+        lo, hi, st = a
+        v = ("ok", k, lo * b.s0, rng(lo, hi, st), 0, st * b.s0, 0)
+    elif fn == "row":
+        i, lo, hi, st = a
+        v = ("ok", "v", i * b.s0 + lo * b.s1, rng(lo, hi, st), 0, st * b.s1, 0)
+    elif fn == "col":
+        lo, hi, st, j = a
+        v = ("ok", "v", lo * b.s0 + j * b.s1, rng(lo, hi, st), 0, st * b.s0, 0)
+    elif fn == "sub":
+        lo0, hi0, st0, lo1, hi1, st1 = a
+        v = ("ok", "m", lo0 * b.s0 + lo1 * b.s1, rng(lo0, hi0, st0), rng(lo1, hi1, st1), st0 * b.s0, st1 * b.s1)
+    elif fn == "idx":
+        v = ("ok", "v", a[0] * b.s0, b.d1, 0, b.s1, 0)
+    elif fn == "tr":
+        v = ("ok", "m", 0, b.d1, b.d0, b.s1, b.s0)
+    elif fn == "diag":
+        kk = a[0]
+        if k == "m":
+            if b.d0 != b.d1:
+                return ("exc", "invalid_operation")
+            v = ("ok", "v", (b.s1 * kk if kk >= 0 else b.s0 * -kk), b.d0 - abs(kk), 0, b.s0 + b.s1, 0)
+        elif k == "s":
+            v = ("ok", "v", abs(kk) * b.s0, b.d0 - abs(kk), 0, b.s0 + 1, 0)
+        else:
+            if abs(kk) > 1:
+                return ("exc", "index_out_of_bounds")
+            v = ("ok", "v", (kk if kk >= 0 else -kk * b.s0), b.d0 - abs(kk), 0, b.s0 + 1, 0)
+    elif fn == "sod":
+        i0, i1 = a
+        if k == "m" and b.d0 != b.d1:
+            return ("exc", "invalid_operation")
+        if i0 < 0 or i0 > i1 or i1 >= b.d0:
+            return ("exc", "index_out_of_bounds")
+        n = i1 - i0 + 1
+        v = ("ok", "m", i0 * (b.s0 + b.s1), n, n, b.s0, b.s1) if k == "m" else ("ok", k, (b.s0 + 1) * i0, n, 0, b.s0, 0)
+    elif fn == "rsh":
+        d0, d1 = a
+        if d0 * d1 != b.d0:
+            return ("exc", "invalid_dimension")
+        v = ("ok", "m", 0, d0, d1, d1 * b.s0, b.s0)
+    elif fn == "perm":
+        i0, i1 = a
+        if i0 not in (0, 1) or i1 not in (0, 1) or i0 == i1:
+            return ("exc", "invalid_dimension")
+        v = ("ok", "m", 0, b.d0, b.d1, b.s0, b.s1) if i0 == 0 else ("ok", "m", 0, b.d1, b.d0, b.s1, b.s0)
+    else:
+        return None
+    if v[1] in "vam" and (v[3] < 0 or v[4] < 0):
+        return ("exc", "invalid_dimension")      # an Array never has a negative extent
+    if v[1] == "a" and b.st == "-":
+        return ("exc", "invalid_operation")      # an active view of data without a Storage has no gradient index
+    return v
+
+
+# ------------------------------------------------------------------ parsing the observation line
+OBJ_RE = re.compile(r"(\d+)\(K=(\w) st=(\S+) nl=(\S+)(?: sz=(\d+))? at=(\S+) L=(\S+) len=(\d+)(?:x(\d+))?"
+                    r"(?: str=(-?\d+)(?:x(-?\d+))?)?(?: gi=(-?\d+))?(?: v=(\S+))?\)")
+EXT_RE = re.compile(r"X(\d+):([01]):(\S*)")
+
+
+class O:
+    __slots__ = ("kind", "st", "nl", "sz", "at", "alloc", "off", "L", "d0", "d1", "s0", "s1", "gi", "v")
+
+    def struct(self):
+        return (self.kind, self.st, self.at, self.d0, self.d1, self.s0, self.s1)
+
+    def geom(self):
+        return (self.alloc, self.off, self.d0, self.d1, self.s0, self.s1)
+
+    def ncells(self):
+        return len(rel_cells(self.kind, self.d0, self.d1, self.s0 or 0, self.s1 or 0))
+
+    def cellmap(self):
+        """absolute element index within the allocation -> value"""
+        if self.v in (None, "!"):
+            return None
+        cs = rel_cells(self.kind, self.d0, self.d1, self.s0, self.s1)
+        return {self.off + c: x for c, x in zip(cs, self.v)}
+
+    def empty(self):
+        return self.d0 == 0
+
+
+def parse(line):
+    """-> (status, n, g, {handle: O}, {ext: (live, vals)}) or None"""
+    parts = line.split(" |")
+    if len(parts) != 4 or not parts[1].startswith(" n="):
+        return None
+    try:
+        m = re.match(r" n=(-?\d+) g=(-?\d+)$", parts[1])
+        n, g = int(m.group(1)), int(m.group(2))
+        objs = {}
+        txt = parts[2]
+        cnt = 0
+        for m in OBJ_RE.finditer(txt):
+            o = O()
+            o.kind, o.st, o.nl = m.group(2), m.group(3), m.group(4)
+            o.sz = int(m.group(5)) if m.group(5) is not None else None
+            o.at, o.L = m.group(6), m.group(7)
+            o.d0 = int(m.group(8)); o.d1 = int(m.group(9)) if m.group(9) is not None else 0
+            o.s0 = int(m.group(10)) if m.group(10) is not None else None
+            o.s1 = int(m.group(11)) if m.group(11) is not None else (0 if o.s0 is not None else None)
+            o.gi = int(m.group(12)) if m.group(12) is not None else None
+            v = m.group(13)
+            o.v = None if v is None else ("!" if v == "!" else [int(t) for t in v.split(",")])
+            if o.at in ("0", "?"):
+                o.alloc, o.off = (None if o.at == "0" else "?"), 0
+            else:
+                a, f = o.at.split("+")
+                o.alloc, o.off = a, int(f)
+            objs[int(m.group(1))] = o
+            cnt += 1
+        if cnt != txt.count("(K="):
+            return None
+        exts = {}
+        for m in EXT_RE.finditer(parts[3]):
+            exts[int(m.group(1))] = (m.group(2) == "1", [int(t) for t in m.group(3).split(",")] if m.group(3) else [])
+        return parts[0], n, g, objs, exts
+    except Exception:
+        return None
+
+
+# ------------------------------------------------------------------ oracle (implementation output only)
+ALLOWED_EXC = {
+    "link": {"empty_array"},
+    "sum": {"size_mismatch"}, "amsum": {"size_mismatch"}, "stdswp": {"size_mismatch"},
+    "ext": {"invalid_dimension"}, "extfn": {"invalid_dimension"},
+    "amext": {"invalid_dimension", "size_mismatch"}, "amextfn": {"invalid_dimension", "size_mismatch"},
+    "amfix": {"size_mismatch"}, "amfresh": {"size_mismatch"},
+    "ac": {"size_mismatch"}, "am": {"size_mismatch"}, "amfn": {"size_mismatch"}, "amdup": {"size_mismatch"},
+    "rs": {"invalid_dimension"}, "rsi": {"invalid_dimension"}, "rs2": {"invalid_dimension"}, "rsi2": {"invalid_dimension"},
+    "fnrs": {"invalid_dimension"}, "newm": {"invalid_dimension"},
+}
+
+
+def targets_of(c, cl, a):
+    if is_create(c):
+        return {a[0]}
+    if c in ("link", "rs", "rsi", "rs2", "rsi2", "clr", "del", "vpop") or is_assign(c) or (cl[0] == "view" and cl[1] == "link"):
+        t = {a[0]}
+        if c == "am":
+            t.add(a[1])
+        return t
+    if c in ("swp", "stdswp"):
+        return {a[0], a[1]}
+    return set()
+
+
+def must_throw(c, cl, a, prev):
+    """the exception class the documented behaviour demands for this request, None if it must succeed, '?' if the
+    oracle does not decide (size mismatch of assignments is decided by the assignment rules)"""
+    if cl[0] == "view":
+        b = prev.get(a[1])
+        if b is None:
+            return "?"
+        ev = expected_view(b, cl[2], a[2:])
+        if ev is None:
+            return "?"
+        if ev[0] == "exc":
+            return ev[1]
+        return None if cl[1] in ("", "fn", "fnv", "link") else "?"
+    if cl[0] in ("new", "newfn"):
+        n0, n1 = dims1(cl[1], a[1])
+        return "invalid_dimension" if resize_outcome(cl[1], cl[1] in "st", n0, n1) == "exc" else None
+    if c == "newm":
+        return "invalid_dimension" if resize_outcome("m", False, a[1], a[2]) == "exc" else None
+    if c in ("rs", "rsi", "rs2", "rsi2") and a[0] in prev:
+        k = prev[a[0]].kind
+        if c in ("rs", "rsi"):
+            n0, n1 = (a[1], a[1]) if k in "st" else (a[1], 0)
+            strict = c == "rsi"
+        else:
+            n0, n1 = a[1], a[2]
+            strict = (c == "rsi2") if k == "m" else False
+        return "invalid_dimension" if resize_outcome(k, strict, n0, n1) == "exc" else None
+    if c in ("ext", "extfn"):
+        return "invalid_dimension" if a[3] < 0 else None
+    if c == "link" and a[1] in prev:
+        return "empty_array" if prev[a[1]].alloc is None else None
+    if c == "sum" and a[1] in prev and a[2] in prev:
+        return "size_mismatch" if prev[a[1]].d0 != prev[a[2]].d0 else None
+    if c in ("cp", "cpc", "cpm", "soft", "clr", "del", "w", "fnw", "swp", "vpush", "vpop", "fsl", "xw", "xend", "xnew", "fnew", "end") \
+            or cl[0] == "newd":
+        return None
+    return "?"
+
+
+def oracle(hist, lines):
+    """hist: ops without the leading reset; lines: implementation output for them.  -> (step, message) or None"""
+    prev_objs, prev_exts, prev_n, prev_g = {}, {}, 0, 0
+    seen_labels = set()
+    soft = set()          # handles that are deliberately uncounted views (soft links and what was made from them)
+    for i, (op, line) in enumerate(zip(hist, lines)):
+        w = op.split()
+        c = w[0]
+        cl = classify(c)
+        if line in ("bad-op", "skip-dangling"):
+            continue
+        if line.startswith("fault"):
+            return i, "implementation driver printed %r" % line
+        p = parse(line)
+        if p is None:
+            return i, "unparsable observation %r" % line[:200]
+        status, n, g, objs, exts = p
+        a = [int(t) for t in w[1:]]
+        want = must_throw(c, cl, a, prev_objs)
+        if status.startswith("exc:"):
+            ecls = status[4:]
+            allowed = ALLOWED_EXC.get(c, set())
+            if cl[0] == "view":
+                allowed = {"invalid_dimension", "invalid_operation", "index_out_of_bounds"}
+                if cl[1] in ("ac", "am", "amfn", "amfnv"):
+                    allowed = allowed | {"size_mismatch"}
+            if cl[0] in ("new", "newfn"):
+                allowed = {"invalid_dimension"}
+            if ecls not in allowed:
+                return i, "unexpected exception %s from %s (reference count underflow?)" % (ecls, c)
+            if want is None:
+                return i, "%s threw %s but the request is valid and must succeed" % (op, ecls)
+            if want != "?" and want != ecls:
+                return i, "%s threw %s, the documented exception for this request is %s" % (op, ecls, want)
+            if c in PLAIN_ASSIGN and a[0] in prev_objs and a[1] in prev_objs:
+                t, b = prev_objs[a[0]], prev_objs[a[1]]
+                degenerate = any(o.kind == "m" and o.d0 > 0 and o.d1 == 0 for o in (t, b))   # an n x 0 matrix is not empty()
+                if not degenerate and (t.empty() or (t.d0, t.d1) == (b.d0, b.d1)):
+                    return i, "%s threw size_mismatch although the target is empty or the extents agree" % op
+            # a thrown exception leaves every object, count and value as it was (std::swap is three statements: a
+            # copy construction and two assignments, each of which is atomic; the second assignment may throw after
+            # the first has stored — only the global rules judge it)
+            if c == "stdswp":
+                pass
+            elif set(objs) != set(prev_objs) or any(objs[k].struct() != prev_objs[k].struct() or objs[k].v != prev_objs[k].v
+                                                  or objs[k].nl != prev_objs[k].nl for k in objs):
+                return i, "%s threw %s but the arrays are not as they were before the call" % (op, ecls)
+            elif n != prev_n:
+                return i, "%s threw %s but n_storage_objects() changed" % (op, ecls)
+            elif g != prev_g:
+                return i, "%s threw %s but n_gradients_registered() changed" % (op, ecls)
+        elif status != "ok":
+            return i, "unknown status %r" % status
+        elif want not in (None, "?"):
+            return i, "%s was accepted; it must be rejected with %s" % (op, want)
+        # ---------------- global rules, every line
+        cnt, act = {}, {}
+        for k, o in objs.items():
+            if o.st not in ("-",):
+                cnt[o.st] = cnt.get(o.st, 0) + 1
+        for k, o in objs.items():
+            if o.alloc == "?":
+                return i, "array %d: data() points into no known allocation" % k
+            if o.st == "?" or o.nl == "!":
+                return i, "array %d refers to a Storage object that has been deleted" % k
+            if o.st != "-":
+                if o.alloc != o.st:
+                    return i, "array %d holds storage %s but its data() points at %s" % (k, o.st, o.at)
+                if o.L != "1":
+                    return i, "array %d holds storage %s whose data have been released" % (k, o.st)
+                if int(o.nl) != cnt[o.st]:
+                    return i, "storage %s: n_links()=%s but %d live arrays refer to it" % (o.st, o.nl, cnt[o.st])
+                if o.off + extent(o.kind, o.d0, o.d1, o.s0, o.s1) > o.sz:
+                    return i, "array %d addresses elements [%d,%d) of storage %s, which has %d" % (
+                        k, o.off, o.off + extent(o.kind, o.d0, o.d1, o.s0, o.s1), o.st, o.sz)
+                if o.kind == "a":
+                    act[o.st] = o.sz
+                    if o.gi != o.off:
+                        return i, "active array %d: gradient index is %s elements from its storage's, data() is %d" % (k, o.gi, o.off)
+        if n != len(cnt):
+            return i, "n_storage_objects()=%d but %d storages are referred to by live arrays (leak or double release)" % (n, len(cnt))
+        if g != sum(act.values()):
+            return i, ("n_gradients_registered()=%d but the active storages referred to by live arrays hold %d elements "
+                       "(gradients not released with the data, or released twice)" % (g, sum(act.values())))
+        # ---------------- frame: who may have changed structurally
+        targets = targets_of(c, cl, a) if status == "ok" or c == "stdswp" else set()
+        if c == "end":
+            if objs or n != 0 or g != 0:
+                return i, "after destroying every array %d arrays / %d storages / %d gradients remain" % (len(objs), n, g)
+            prev_objs, prev_exts, prev_n, prev_g = objs, exts, n, g
+            continue
+        expect_handles = set(prev_objs)
+        if status == "ok" and is_create(c):
+            expect_handles.add(a[0])
+        if status == "ok" and c in ("del", "vpop"):
+            expect_handles.discard(a[0])
+        if set(objs) != expect_handles:
+            return i, "live handles %s, expected %s" % (sorted(objs), sorted(expect_handles))
+        for k, o in objs.items():
+            if k not in targets and k in prev_objs and o.struct() != prev_objs[k].struct():
+                return i, "%s changed array %d (%s -> %s), which it does not name as a target" % (op, k, prev_objs[k].struct(), o.struct())
+        # ---------------- per-operation rules
+        if status == "ok":
+            msg = op_rule(c, cl, a, objs, prev_objs, exts, prev_exts, seen_labels, soft)
+            if msg:
+                return i, msg
+            # values: a change shows only through views of the allocation that was written
+            written = written_allocs(c, cl, a, objs, prev_objs)
+            for k, o in objs.items():
+                if k in prev_objs and k not in targets and o.v != prev_objs[k].v and o.v != "!" and prev_objs[k].v != "!":
+                    if o.alloc not in written:
+                        return i, "%s changed the values seen by array %d (%s), which lives in another allocation than the one written" % (op, k, o.at)
+        soft &= set(objs)
+        for k, o in objs.items():
+            if o.st != "-":
+                seen_labels.add(o.st)
+            elif o.alloc is not None and o.alloc.startswith("S") and k not in soft:
+                # only soft links (and what was made from them) may look into library storage without holding it
+                return i, "array %d has no storage yet its data() points into library storage %s (live=%s)" % (k, o.alloc, o.L)
+        prev_objs, prev_exts, prev_n, prev_g = objs, exts, n, g
+    return None
+
+
+def written_allocs(c, cl, a, objs, prev):
+    if c in ("w", "fnw"):
+        return {prev[a[0]].alloc}
+    if c in ("xw", "xend"):
+        return {"X%d" % a[0]}
+    if is_assign(c):
+        return {objs[a[0]].alloc} if a[0] in objs else set()
+    if c == "stdswp":
+        return {objs[a[0]].alloc, objs[a[1]].alloc}
+    return set()
+
+
+def view_values(b, ev):
+    """values the view reads, from the source's observed values"""
+    cm = b.cellmap()
+    if cm is None:
+        return "!" if b.v == "!" else []
+    _, kind, delta, d0, d1, s0, s1 = ev
+    cs = rel_cells(kind, d0, d1, s0, s1)
+    try:
+        return [cm[b.off + delta + c] for c in cs]
+    except KeyError:
+        return "!"
+
+
+def op_rule(c, cl, a, objs, prev, exts, prev_exts, seen_labels, soft):
+    """rules for a successful operation; returns a message or None"""
+    def is_blank(o):
+        return o.alloc is None and o.st == "-" and o.d0 == 0 and o.d1 == 0
+
+    def fresh_owner(o, kind, outcome, what):
+        if o.kind != kind:
+            return "%s has kind %s, expected %s" % (what, o.kind, kind)
+        if outcome == "clear":
+            return None if is_blank(o) else "%s with a zero extent must leave an empty array without data" % what
+        d0, d1, s0, s1, vol = packed(kind, outcome[0], outcome[1])
+        if (o.st == "-" or o.st in seen_labels or o.nl != "1" or o.off != 0 or (o.d0, o.d1, o.s0, o.s1) != (d0, d1, s0, s1)
+                or o.sz != vol):
+            return "%s must own a new unshared storage of %d elements (got st=%s nl=%s sz=%s at=%s len=%dx%d str=%sx%s)" % (
+                what, vol, o.st, o.nl, o.sz, o.at, o.d0, o.d1, o.s0, o.s1)
+        return None
+
+    def shares(o, b, want_geom, want_st, what):
+        if o.geom() != want_geom:
+            return "%s: new array is at %s len %dx%d str %sx%s, expected %s" % (what, o.at, o.d0, o.d1, o.s0, o.s1, want_geom)
+        if o.st != want_st:
+            return "%s: array holds storage %s, source holds %s" % (what, o.st, b.st)
+        return None
+
+    def view_geom(b, ev):
+        _, kind, delta, d0, d1, s0, s1 = ev
+        return (b.alloc, b.off + delta, d0, d1, s0, s1)
+
+    if cl[0] in ("new", "newfn"):
+        n0, n1 = dims1(cl[1], a[1])
+        return fresh_owner(objs[a[0]], cl[1], resize_outcome(cl[1], cl[1] in "st", n0, n1), "new array")
+    if c == "newm":
+        return fresh_owner(objs[a[0]], "m", resize_outcome("m", False, a[1], a[2]), "new matrix")
+    if c in ("rs", "rsi", "rs2", "rsi2"):
+        soft.discard(a[0])
+        k = prev[a[0]].kind
+        if c in ("rs", "rsi"):
+            n0, n1 = (a[1], a[1]) if k in "st" else (a[1], 0)
+            strict = c == "rsi"
+        else:
+            n0, n1 = a[1], a[2]
+            strict = (c == "rsi2") if k == "m" else False
+        return fresh_owner(objs[a[0]], k, resize_outcome(k, strict, n0, n1), "resized array")
+    if cl[0] == "newd" or c == "clr":
+        o = objs[a[0]]
+        soft.discard(a[0])
+        if not is_blank(o):
+            return "%s must give an empty array with no data and no storage" % c
+        return None
+    if c in ("ext", "extfn", "fsl"):
+        o = objs[a[0]]
+        off, n = (a[2], a[3]) if c != "fsl" else (a[2], a[3] - a[2] + 1)
+        if o.st != "-" or o.at != "X%d+%d" % (a[1], off) or o.d0 != n or o.kind != "v" or o.s0 != 1:
+            return "array over external memory must point at it and hold no storage (got st=%s at=%s len=%d)" % (o.st, o.at, o.d0)
+        return None
+    if c in ("cp", "cpc", "cpm", "soft", "vpush"):
+        o, b = objs[a[0]], prev[a[1]]
+        if o.kind != b.kind:
+            return "%s: kind %s from a source of kind %s" % (c, o.kind, b.kind)
+        msg = shares(o, b, b.geom(), "-" if c == "soft" else b.st, c)
+        if msg:
+            return msg
+        if c == "soft" and o.alloc is not None and o.alloc.startswith("S"):
+            soft.add(a[0])
+        if c != "soft" and a[1] in soft and o.st == "-":
+            soft.add(a[0])
+        return None
+    if cl[0] == "view" and cl[1] in ("", "fn", "fnv", "link"):
+        o, b = objs[a[0]], prev[a[1]]
+        ev = expected_view(b, cl[2], a[2:])
+        if ev is None or ev[0] != "ok":
+            return "%s succeeded although the request must be rejected (%s)" % (c, ev)
+        if o.kind != ev[1]:
+            return "%s: result of kind %s, expected %s" % (c, o.kind, ev[1])
+        if cl[1] == "link" and a[0] == a[1]:
+            return None            # a >>= a(view): the source is a itself, judged by the global rules
+        msg = shares(o, b, view_geom(b, ev), b.st, c)
+        if msg:
+            return msg
+        vv = view_values(b, ev)
+        if vv != "!" and o.v not in ("!", None) and o.v != vv:
+            return "%s: the view reads %s, the source holds %s there" % (c, o.v, vv)
+        if a[1] in soft and o.st == "-":
+            soft.add(a[0])
+        else:
+            soft.discard(a[0])
+        return None
+    if c == "link":
+        o, b = objs[a[0]], prev[a[1]]
+        if a[0] == a[1]:
+            return None if is_blank(o) else "a.link(a) must leave a cleared"
+        msg = shares(o, b, b.geom(), b.st, c)
+        if msg:
+            return msg
+        if a[1] in soft and o.st == "-":
+            soft.add(a[0])
+        else:
+            soft.discard(a[0])
+        return None
+    if c in ("w", "fnw"):
+        o = objs[a[0]]
+        if o.v != "!" and o.v[a[1]] != a[2]:
+            return "%s: element reads %d after the write" % (c, o.v[a[1]])
+        return None
+    if c == "swp":
+        for x, y in ((a[0], a[1]), (a[1], a[0])):
+            if objs[x].struct() != prev[y].struct() or objs[x].nl != prev[y].nl or objs[x].v != prev[y].v:
+                return "swap: array %d is not what array %d was" % (x, y)
+        if a[0] != a[1] and (a[0] in soft) != (a[1] in soft):
+            soft ^= {a[0], a[1]}
+        return None
+    if c == "stdswp":
+        return None                # judged by the global rules (counts, ownership, frame)
+    if c == "sum":
+        o, b, b2 = objs[a[0]], prev[a[1]], prev[a[2]]
+        msg = fresh_owner(o, b.kind, "clear" if b.d0 == 0 else (b.d0, 0), "result of b + c")
+        if msg:
+            return msg
+        if b.d0 and b.v != "!" and b2.v != "!" and o.v != [p + q for p, q in zip(b.v, b2.v)]:
+            return "sum: result reads %s" % (o.v,)
+        return None
+    if is_assign(c):
+        return assign_rule(c, cl, a, objs, prev, prev_exts, seen_labels, soft)
+    return None
+
+
+def assign_rule(c, cl, a, objs, prev, prev_exts, seen_labels, soft):
+    o, o0 = objs[a[0]], prev[a[0]]
+    is_am = c == "am" and o0.kind in "vma"               # SpecialMatrix has no move assignment
+    if is_am and a[0] != a[1] and objs[a[1]].struct() not in (prev[a[1]].struct(), o0.struct()):
+        return "move assignment left its source neither untouched nor with the target's old data"
+    if is_am and a[0] != a[1] and a[0] in soft and objs[a[1]].struct() == o0.struct() != prev[a[1]].struct():
+        soft.add(a[1])                               # swap: the source now is the (empty) uncounted view
+    # value and extents of the right-hand side before the statement
+    sdims = None
+    if c in PLAIN_ASSIGN:
+        b = prev[a[1]]
+        src = b.v if b.ncells() else []
+        sdims = (b.d0, b.d1)
+    elif cl[0] == "view":
+        b = prev[a[1]]
+        ev = expected_view(b, cl[2], a[2:])
+        if ev is None or ev[0] != "ok":
+            return "%s succeeded although the view must be rejected (%s)" % (c, ev)
+        src = view_values(b, ev)
+        sdims = (ev[3], ev[4])
+    elif c in ("amext", "amextfn"):
+        src = prev_exts[a[1]][1][a[2]:a[2] + a[3]]
+        sdims = (a[3], 0)
+    elif c == "amfix":
+        src = prev_exts[a[1]][1][a[2]:a[3] + 1]
+        sdims = (a[3] - a[2] + 1, 0)
+    elif c == "amsum":
+        b, b2 = prev[a[1]], prev[a[2]]
+        if b.d0 != b2.d0:
+            return "sum of arrays of different length was accepted"
+        src = "!" if "!" in (b.v, b2.v) else [p + q for p, q in zip(b.v or [], b2.v or [])]
+        sdims = (b.d0, 0)
+    else:                                             # amfresh
+        n0, n1 = dims1(o0.kind, a[1])
+        if resize_outcome(o0.kind, o0.kind in "st", n0, n1) == "clear":
+            src, sdims = [], (0, 0)
+        else:
+            pk = packed(o0.kind, n0, n1)
+            src = [a[2] + j for j in range(len(rel_cells(o0.kind, pk[0], pk[1], pk[2], pk[3])))]
+            sdims = (n0, n1 if o0.kind == "m" else 0)
+    if o0.kind in "st":
+        sdims = (sdims[0], 0)
+    # extents: an empty target takes the source's, a non-empty one must match (else the statement must have thrown)
+    if not o0.empty() and (o0.d0, o0.d1) != sdims:
+        return "%s: extents %s assigned to a non-empty target of extents %s without size_mismatch" % (c, sdims, (o0.d0, o0.d1))
+    have = o.v if o.ncells() else []
+    if src != "!" and have != "!" and have != (src or []):
+        return "%s: target reads %s, the right-hand side was %s" % (c, have, src)
+    if o.struct() == o0.struct():
+        return None                                  # stored in place (or nothing to do)
+    if o.alloc is None and o.st == "-" and o.d0 == 0:
+        soft.discard(a[0])
+        return None                                  # empty = empty
+    # the target moved: it must now own an unshared library storage
+    soft.discard(a[0])
+    if o.st == "-" or o.alloc != o.st or o.nl != "1":
+        return ("after %s the target does not own its data: it points at %s (storage %s, n_links %s)"
+                % (c, o.at, o.st, o.nl))
+    if o.st in seen_labels:
+        # not new: only a move from an lvalue may hand over an existing storage, and then it is a swap
+        if not is_am or prev[a[1]].st != o.st or prev[a[1]].nl != "1":
+            return "after %s the target holds storage %s, which already existed and was not the source's own" % (c, o.st)
+        if objs[a[1]].struct() != o0.struct():
+            return "move assignment took the source's storage without handing the target's old data to the source"
+    if not o0.empty() and not (o0.st != "-" and o0.nl == "1"):
+        return "%s replaced the data of a non-empty target that was a view or shared (must be stored in place)" % c
+    return None
 
 
 # ------------------------------------------------------------------ generator
 class Gen:
-    """random life-cycle histories; keeps an approximate shadow (extents only) so that most ops are well-formed"""
+    """random life-cycle histories over all kinds; keeps an approximate shadow (kind and extents) so that most ops are
+    well-formed; a fraction of the requests is deliberately INVALID (reversed ranges, diagonals beyond the matrix,
+    wrong reshape, bad sub-matrix bounds, negative extents, link to empty, mismatching sizes) and must be rejected"""
 
-    def __init__(self, rng, length):
+    def __init__(self, rng, length, kinds="vmast"):
         self.r, self.length = rng, length
         self.ops = []
-        self.len = {}      # handle -> extent or None (unknown)
+        self.kind = {}     # handle -> kind
+        self.dim = {}      # handle -> (d0, d1) or None (unknown)
+        self.bag = {k: [] for k in "vmast"}
         self.ext = {}      # block -> [size, live, fixed]
         self.nk = 0
         self.nx = 0
         self.maxpool = rng.choice([3, 4, 6, 8])
+        self.kinds = kinds
+        self.pbad = rng.choice([0.0, 0.1, 0.1, 0.2, 0.35])
 
     def fresh(self):
         self.nk += 1
         return self.nk
 
-    def pick(self, nonempty=False):
-        ks = [k for k in self.len if not nonempty or (self.len[k] or 0) > 0]
+    def newkind(self):
+        return self.r.choice([k for k in "vvvvmmaasstt" if k in self.kinds])
+
+    def d0(self, k):
+        d = self.dim.get(k)
+        return d[0] if d else 0
+
+    def nonempty(self, k):
+        d = self.dim.get(k)
+        return bool(d) and d[0] > 0 and (self.kind[k] != "m" or d[1] > 0)
+
+    def pick(self, nonempty=False, kind=None):
+        ks = [k for k in self.kind if (not nonempty or self.nonempty(k)) and (kind is None or self.kind[k] in kind)]
         return self.r.choice(ks) if ks else None
 
-    def rslice(self, n):
+    def ncells(self, k):
+        d = self.dim.get(k)
+        if not d:
+            return 0
+        kd = self.kind[k]
+        return {"v": d[0], "a": d[0], "m": d[0] * d[1], "s": d[0] * (d[0] + 1) // 2, "t": max(0, 3 * d[0] - 2)}[kd]
+
+    def rrange(self, n, bad=False):
         r = self.r
         st = r.choice([1, 1, 1, 2, 2, 3])
         lo = r.randrange(n)
         hi = r.randrange(lo, n)
         if lo >= 1 and r.random() < 0.06:
-            hi = lo - 1
+            hi = lo - 1                                  # empty view that still holds a link
+        if bad and n >= 3:
+            lo = r.randrange(2, n); hi = r.randrange(0, lo - 1); st = r.choice([1, 1, 2])
         return lo, hi, st
+
+    @staticmethod
+    def rlen(lo, hi, st):
+        return max(0, tdiv(hi + st - lo, st))
+
+    def view(self, b):
+        """-> (fn, args, result kind, result dims or None) for a view of b; sometimes an invalid request"""
+        r = self.r
+        kd, (n0, n1) = self.kind[b], self.dim[b]
+        bad = r.random() < self.pbad
+        if kd in "va":
+            if kd == "v" and r.random() < 0.2:
+                divs = [d for d in range(1, n0 + 1) if n0 % d == 0]
+                d0 = r.choice(divs); d1 = n0 // d0
+                if bad:
+                    d0, d1 = r.choice([(d0 + 1, d1), (-d0, -d1), (0, d1), (-1, -n0), (d0, d1 + 1)])
+                return "rsh", [d0, d1], "m", ((d0, d1) if d0 > 0 and d1 > 0 else None)
+            lo, hi, st = self.rrange(n0, bad)
+            return "sl", [lo, hi, st], kd, (self.rlen(lo, hi, st), 0)
+        if kd == "m":
+            fn = r.choice(["row", "col", "sub", "idx", "tr", "diag", "sod", "perm"])
+            if fn == "row":
+                lo, hi, st = self.rrange(n1, bad)
+                return fn, [r.randrange(n0), lo, hi, st], "v", (self.rlen(lo, hi, st), 0)
+            if fn == "col":
+                lo, hi, st = self.rrange(n0, bad)
+                return fn, [lo, hi, st, r.randrange(n1)], "v", (self.rlen(lo, hi, st), 0)
+            if fn == "sub":
+                a0 = self.rrange(n0, bad and r.random() < 0.5); a1 = self.rrange(n1, bad)
+                return fn, list(a0) + list(a1), "m", (self.rlen(*a0), self.rlen(*a1))
+            if fn == "idx":
+                return fn, [r.randrange(n0)], "v", (n1, 0)
+            if fn == "tr":
+                return fn, [], "m", (n1, n0)
+            if fn == "perm":
+                i0, i1 = r.choice([(1, 0), (0, 1)]) if not bad else r.choice([(0, 0), (1, 1), (0, 2), (-1, 0), (2, 1)])
+                return fn, [i0, i1], "m", ((n1, n0) if (i0, i1) == (1, 0) else (n0, n1))
+            if fn == "diag":
+                k = r.randrange(-(min(n0, n1) - 1), min(n0, n1)) if min(n0, n1) > 0 else 0
+                if bad:
+                    k = r.choice([n0 + 1, -(n0 + 1), n0 + 3])
+                return fn, [k], "v", (max(0, n0 - abs(k)) if n0 == n1 else 0, 0)
+            i0 = r.randrange(n0); i1 = r.randrange(i0, n0)
+            if bad:
+                i0, i1 = r.choice([(i1 + 1, i0), (-1, i1), (i0, n0), (i0, n0 + 2)])
+            return "sod", [i0, i1], "m", (i1 - i0 + 1,) * 2
+        # symmetric / tridiagonal
+        if r.random() < 0.5:
+            k = r.randrange(-(n0 - 1), n0) if kd == "s" else r.choice([-1, 0, 0, 1])
+            if kd == "t" and n0 == 1:
+                k = 0
+            if bad:
+                k = r.choice([n0 + 1, -(n0 + 1), 2, -2, n0 + 2])
+                if abs(k) == n0:
+                    k = n0 + 1
+            return "diag", [k], "v", (max(0, n0 - abs(k)), 0)
+        i0 = r.randrange(n0); i1 = r.randrange(i0, n0)
+        if bad:
+            i0, i1 = r.choice([(i1 + 1, i0), (-1, i1), (i0, n0), (i0, n0 + 2)])
+        return "sod", [i0, i1], kd, (i1 - i0 + 1, 0)
 
     def liveext(self, fixed=None):
         xs = [x for x, e in self.ext.items() if e[1] and (fixed is None or e[2] == fixed)]
@@ -71,32 +802,62 @@ class Gen:
     def emit(self, s):
         self.ops.append(s)
 
+    def setobj(self, k, kind, dim):
+        self.kind[k] = kind
+        self.dim[k] = dim
+
     def mutate_source(self, src):
         """the environment changes what the right-hand side was made of"""
         r = self.r
         kind, h = src
-        if kind == "obj" and h in self.len and (self.len[h] or 0) > 0:
-            self.emit("w %d %d %d" % (h, r.randrange(self.len[h]), self.val()))
+        if kind == "obj" and h in self.kind and self.ncells(h) > 0:
+            self.emit("w %d %d %d" % (h, r.randrange(self.ncells(h)), self.val()))
         elif kind == "ext" and h in self.ext and self.ext[h][1]:
             if r.random() < 0.25:
                 self.emit("xend %d" % h); self.ext[h][1] = False
             else:
                 self.emit("xw %d %d %d" % (h, r.randrange(self.ext[h][0]), self.val()))
 
+    def size_for(self, kd, small=False):
+        r = self.r
+        if kd in "va":
+            return (r.choice([0, 0, 1, 2, 3, 3, 4, 5, 6]), 0)
+        if kd == "m":
+            return (r.choice([1, 2, 2, 3, 3, 4]), r.choice([1, 2, 3, 3, 4]))
+        return (r.choice([1, 2, 3, 3, 4]), 0)
+
+    def create(self):
+        r = self.r
+        k = self.fresh(); kd = self.newkind()
+        n0, n1 = self.size_for(kd)
+        x = r.random()
+        if x < 0.12:
+            self.emit("newd%s %d" % (SFX_OF[kd], k)); self.setobj(k, kd, (0, 0)); return
+        if x < 0.12 + self.pbad * 0.3:                  # a constructor that must throw: no object
+            if kd == "m":
+                self.emit("newm %d %d %d %d" % (k, r.choice([-1, 2]), r.choice([-2, -1]), self.val()))
+            else:
+                self.emit("new%s%s %d %d %d" % (r.choice(["", "fn"]), SFX_OF[kd], k, r.choice([-1, -2]), self.val()))
+            return
+        if kd == "m":
+            if r.random() < 0.25:
+                self.emit("newfnm %d %d %d" % (k, n0, self.val())); self.setobj(k, kd, (n0, 2))
+            else:
+                self.emit("newm %d %d %d %d" % (k, n0, n1, self.val())); self.setobj(k, kd, (n0, n1))
+        else:
+            self.emit("new%s%s %d %d %d" % ("fn" if r.random() < 0.25 else "", SFX_OF[kd], k, n0, self.val()))
+            self.setobj(k, kd, (n0, 0) if n0 > 0 else (0, 0))
+
     def step(self):
         r = self.r
-        L = self.len
+        K, D = self.kind, self.dim
         x = r.random()
-        if not L or (len(L) < 2 and x < 0.5):
+        if not K or (len(K) < 2 and x < 0.5):
             x = 0.0
-        if len(L) > self.maxpool and x < 0.30:
-            x = 0.93
-        if x < 0.07:          # fresh arrays, often small or empty
-            k = self.fresh(); n = r.choice([0, 0, 1, 2, 3, 3, 4, 5])
-            if r.random() < 0.15:
-                self.emit("newd %d" % k); L[k] = 0
-            else:
-                self.emit("new %d %d %d" % (k, n, self.val())); L[k] = n
+        if len(K) > self.maxpool and x < 0.30:
+            x = 0.95
+        if x < 0.08:          # fresh arrays of every kind, often small or empty
+            self.create()
         elif x < 0.11:        # external memory
             if len(self.ext) < 4 and r.random() < 0.7 or not self.ext:
                 self.nx += 1
@@ -109,112 +870,179 @@ class Gen:
                 xb = self.liveext()
                 if xb is not None:
                     self.mutate_source(("ext", xb))
-        elif x < 0.16:        # array over external memory / FixedArray slice
+        elif x < 0.15:        # array over external memory / FixedArray slice
             xb = self.liveext()
             if xb is None:
                 return
             k = self.fresh(); size, _, fixed = self.ext[xb]
             if fixed:
                 lo = r.randrange(4); hi = r.randrange(lo, 4)
-                self.emit("fsl %d %d %d %d" % (k, xb, lo, hi)); L[k] = hi - lo + 1
+                self.emit("fsl %d %d %d %d" % (k, xb, lo, hi)); self.setobj(k, "v", (hi - lo + 1, 0))
             else:
                 off = r.randrange(size); n = r.randrange(0, size - off + 1)
-                self.emit("ext %d %d %d %d" % (k, xb, off, n)); L[k] = n
-        elif x < 0.24:        # shallow copies
+                if r.random() < self.pbad * 0.5:
+                    self.emit("%s %d %d %d %d" % (r.choice(["ext", "extfn"]), k, xb, off, -1))
+                    return
+                self.emit("%s %d %d %d %d" % (r.choice(["ext", "ext", "extfn"]), k, xb, off, n)); self.setobj(k, "v", (n, 0))
+        elif x < 0.22:        # shallow copies, also into a std::vector
             b = self.pick()
             k = self.fresh()
-            self.emit("%s %d %d" % (r.choice(["cp", "cpc", "cpm"]), k, b)); L[k] = L[b]
-        elif x < 0.33:        # views
+            if K[b] in "va" and r.random() < 0.2:
+                cands = [k2 for k2 in K if K[k2] == K[b] and (D[k2] == D[b] or r.random() < 0.15)]
+                self.emit("sum %d %d %d" % (k, b, r.choice(cands)))
+            elif r.random() < 0.25:
+                self.emit("vpush %d %d" % (k, b)); self.bag[K[b]].append(k)
+            else:
+                self.emit("%s %d %d" % (r.choice(["cp", "cpc", "cpm"]), k, b))
+            self.setobj(k, K[b], D[b])
+        elif x < 0.34:        # views held in new objects (also through functions)
             b = self.pick(nonempty=True)
             if b is None:
                 return
-            lo, hi, st = self.rslice(L[b]); k = self.fresh()
-            self.emit("sl %d %d %d %d %d" % (k, b, lo, hi, st)); L[k] = (hi + st - lo) // st
-        elif x < 0.36:
+            fn, args, rk, rd = self.view(b)
+            k = self.fresh()
+            form = r.choice(["fn", "fnv"]) if fn == "sl" and r.random() < 0.3 else ""
+            self.emit("%s%s %d %d %s" % (form, fn, k, b, " ".join(map(str, args))))
+            self.setobj(k, rk, rd)          # if the request is rejected the handle stays unused (ops on it are bad-op)
+        elif x < 0.37:
             b = self.pick(); k = self.fresh()
-            self.emit("soft %d %d" % (k, b)); L[k] = L[b]
-        elif x < 0.44:        # link, also to itself, to empty arrays and to temporaries
-            a = self.pick(); b = a if r.random() < 0.08 else self.pick()
-            if (L[b] or 0) > 0 and r.random() < 0.4:
-                lo, hi, st = self.rslice(L[b])
-                self.emit("linksl %d %d %d %d %d" % (a, b, lo, hi, st)); L[a] = (hi + st - lo) // st
-            else:
-                self.emit("link %d %d" % (a, b))
-                L[a] = L[b] if (L[b] or 0) > 0 else None
-        elif x < 0.72:        # assignment, mostly from temporaries; then the source is changed
+            self.emit("soft %d %d" % (k, b)); self.setobj(k, K[b], D[b])
+        elif x < 0.45:        # link, also to itself, to empty arrays and to temporaries
             a = self.pick()
-            form = r.choice(["ac", "am", "am", "amfn", "amdup", "acsl", "amsl", "amsl", "amext", "amext", "amfix", "amfix", "amfresh"])
-            src = None
-            want = L[a] if (L[a] or 0) > 0 and r.random() < 0.8 else None   # extent that will be accepted
-            if form in ("ac", "am", "amfn", "amdup"):
-                cands = [k for k in L if want is None or L[k] == want]
-                b = a if r.random() < 0.07 else (r.choice(cands) if cands else self.pick())
-                self.emit("%s %d %d" % (form, a, b)); src = ("obj", b)
-                if (L[a] or 0) == 0:
-                    L[a] = L[b]
-                    if form == "am" and a != b:
-                        L[b] = None
-            elif form in ("acsl", "amsl"):
-                b = self.pick(nonempty=True)
-                if b is None:
-                    return
-                lo, hi, st = self.rslice(L[b])
-                if want is not None and st == 1 and lo + want <= L[b]:
-                    hi = lo + want - 1
-                self.emit("%s %d %d %d %d %d" % (form, a, b, lo, hi, st)); src = ("obj", b)
-                if (L[a] or 0) == 0:
-                    L[a] = (hi + st - lo) // st
-            elif form == "amext":
-                xb = self.liveext(fixed=False)
-                if xb is None:
-                    return
-                size = self.ext[xb][0]
-                off = r.randrange(size); n = r.randrange(0, size - off + 1)
-                if want is not None and want <= size:
-                    off = r.randrange(size - want + 1); n = want
-                self.emit("amext %d %d %d %d" % (a, xb, off, n)); src = ("ext", xb)
-                if (L[a] or 0) == 0:
-                    L[a] = n
-            elif form == "amfix":
-                xb = self.liveext(fixed=True)
-                if xb is None:
-                    return
-                lo = r.randrange(4); hi = r.randrange(lo, 4)
-                if want is not None and want <= 4:
-                    lo = r.randrange(4 - want + 1); hi = lo + want - 1
-                self.emit("amfix %d %d %d %d" % (a, xb, lo, hi)); src = ("ext", xb)
-                if (L[a] or 0) == 0:
-                    L[a] = hi - lo + 1
-            else:
-                n = want if want is not None else r.choice([0, 1, 2, 3, 4])
-                self.emit("amfresh %d %d %d" % (a, n, self.val()))
-                if (L[a] or 0) == 0:
-                    L[a] = n
-            if src is not None and r.random() < 0.7:
-                self.mutate_source(src)
-        elif x < 0.78:        # resize / clear, preferably of shared data
+            if r.random() < 0.5:
+                cands = [b for b in K if self.nonempty(b)]
+                r.shuffle(cands)
+                for b in cands[:4]:
+                    fn, args, rk, rd = self.view(b)
+                    if rk == K[a]:
+                        self.emit("link%s %d %d %s" % (fn, a, b, " ".join(map(str, args)))); D[a] = rd
+                        return
+            b = a if r.random() < 0.08 else self.pick(kind=K[a])
+            self.emit("link %d %d" % (a, b))
+            D[a] = D[b] if self.nonempty(b) else None
+        elif x < 0.70:        # assignment, mostly from temporaries; then the source is changed
+            self.assign()
+        elif x < 0.76:        # resize / clear, preferably of shared data
             a = self.pick()
-            if r.random() < 0.45:
-                self.emit("clr %d" % a); L[a] = 0
-            else:
-                n = r.choice([-2, -1, 0, 1, 2, 3, 4, 6])
+            kd = K[a]
+            if r.random() < 0.4:
+                self.emit("clr %d" % a); D[a] = (0, 0)
+            elif kd in "va" or (kd in "st" and r.random() < 0.6):
+                n = r.choice([-2, -1, 0, 1, 2, 3, 4, 6] if kd in "va" else [-1, 0, 1, 2, 3, 4])
                 self.emit("%s %d %d %d" % (r.choice(["rs", "rs", "rsi"]), a, n, self.val()))
                 if n >= 0:
-                    L[a] = n
-        elif x < 0.82:        # through functions
-            b = self.pick()
-            if (L[b] or 0) > 0 and r.random() < 0.6:
-                self.emit("fnw %d %d %d" % (b, r.randrange(L[b]), self.val()))
+                    D[a] = (n, 0)
             else:
-                self.emit("fnrs %d %d" % (b, r.choice([0, 1, 3, 5])))
-        elif x < 0.90:        # writes
+                n0 = r.choice([-1, 0, 1, 2, 3, 4]); n1 = r.choice([-1, 0, 1, 2, 3]) if kd == "m" or r.random() < 0.3 else n0
+                self.emit("%s %d %d %d %d" % (r.choice(["rs2", "rsi2"]), a, n0, n1, self.val()))
+                if kd == "m":
+                    D[a] = (n0, n1) if n0 > 0 and n1 > 0 else ((0, 0) if n0 >= 0 and n1 >= 0 else D[a])
+                elif n0 == n1 and n0 >= 0:
+                    D[a] = (n0, 0)
+        elif x < 0.80:        # through functions: by-value parameters
+            b = self.pick()
+            if self.ncells(b) > 0 and r.random() < 0.6:
+                self.emit("fnw %d %d %d" % (b, r.randrange(self.ncells(b)), self.val()))
+            else:
+                self.emit("fnrs %d %d" % (b, r.choice([-1, 0, 1, 3, 5])))
+        elif x < 0.83:        # swap
+            a = self.pick(); b = self.pick(kind=K[a])
+            op = r.choice(["swp", "stdswp"]) if K[a] in "vma" else "stdswp"
+            self.emit("%s %d %d" % (op, a, b))
+            if op == "swp":
+                D[a], D[b] = D[b], D[a]
+            elif not self.nonempty(a) or not self.nonempty(b):
+                D[a] = D[b] = None
+        elif x < 0.91:        # writes
             a = self.pick(nonempty=True)
-            if a is None:
+            if a is None or self.ncells(a) == 0:
                 return
-            self.emit("w %d %d %d" % (a, r.randrange(L[a]), self.val()))
+            self.emit("w %d %d %d" % (a, r.randrange(self.ncells(a)), self.val()))
         else:                 # destruction: parents before views as often as not
             a = self.pick()
-            self.emit("del %d" % a); del L[a]
+            inbag = [k for k in "vmast" if a in self.bag[k]]
+            if inbag:
+                a = self.bag[inbag[0]].pop()
+                self.emit("vpop %d" % a)
+            else:
+                self.emit("del %d" % a)
+            del K[a]; del D[a]
+
+    def assign(self):
+        r = self.r
+        K, D = self.kind, self.dim
+        a = self.pick()
+        kd = K[a]
+        forms = ["ac", "am", "am", "amfn", "amdup", "acview", "amview", "amview", "amfresh"]
+        if kd == "v":
+            forms += ["amext", "amext", "amfix", "amfix", "amextfn"]
+        if kd in "va":
+            forms += ["amsum", "amfnsl"]
+        form = r.choice(forms)
+        src = None
+        want = D[a] if self.nonempty(a) and r.random() < 0.8 else None   # extents that will be accepted
+        empty_target = not self.nonempty(a)
+        if form in PLAIN_ASSIGN:
+            cands = [k for k in K if K[k] == kd and (want is None or D[k] == want)]
+            b = a if r.random() < 0.07 else (r.choice(cands) if cands else self.pick(kind=kd))
+            self.emit("%s %d %d" % (form, a, b)); src = ("obj", b)
+            if empty_target:
+                D[a] = D[b]
+                if form == "am" and a != b and kd in "vma":
+                    D[b] = None
+        elif form in ("acview", "amview", "amfnsl"):
+            cands = [b for b in K if self.nonempty(b)]
+            r.shuffle(cands)
+            for b in cands[:6]:
+                fn, args, rk, rd = self.view(b)
+                if rk != kd or (form == "amfnsl" and fn != "sl"):
+                    continue
+                if want is not None and fn == "sl" and args[2] == 1 and args[0] + want[0] <= self.d0(b):
+                    args[1] = args[0] + want[0] - 1; rd = (want[0], 0)
+                pre = {"acview": "ac", "amview": "am", "amfnsl": r.choice(["amfn", "amfnv"])}[form]
+                self.emit("%s%s %d %d %s" % (pre, fn, a, b, " ".join(map(str, args)))); src = ("obj", b)
+                if empty_target:
+                    D[a] = rd
+                break
+            else:
+                return
+        elif form in ("amext", "amextfn"):
+            xb = self.liveext(fixed=False)
+            if xb is None:
+                return
+            size = self.ext[xb][0]
+            off = r.randrange(size); n = r.randrange(0, size - off + 1)
+            if want is not None and want[0] <= size:
+                off = r.randrange(size - want[0] + 1); n = want[0]
+            self.emit("%s %d %d %d %d" % (form, a, xb, off, n)); src = ("ext", xb)
+            if empty_target:
+                D[a] = (n, 0)
+        elif form == "amfix":
+            xb = self.liveext(fixed=True)
+            if xb is None:
+                return
+            lo = r.randrange(4); hi = r.randrange(lo, 4)
+            if want is not None and want[0] <= 4:
+                lo = r.randrange(4 - want[0] + 1); hi = lo + want[0] - 1
+            self.emit("amfix %d %d %d %d" % (a, xb, lo, hi)); src = ("ext", xb)
+            if empty_target:
+                D[a] = (hi - lo + 1, 0)
+        elif form == "amsum":
+            cands = [k for k in K if K[k] == kd and (want is None or D[k] == want)]
+            if not cands:
+                return
+            b = r.choice(cands)
+            c2 = r.choice([k for k in cands if D[k] == D[b]] if r.random() < 0.85 else cands)
+            self.emit("amsum %d %d %d" % (a, b, c2)); src = ("obj", b)
+            if empty_target:
+                D[a] = D[b]
+        else:
+            n = want[0] if want is not None and (kd != "m" or want[1] == 2) else r.choice([0, 1, 2, 3, 4])
+            self.emit("amfresh %d %d %d" % (a, n, self.val()))
+            if empty_target:
+                D[a] = (n, 2 if kd == "m" else 0) if n > 0 else (0, 0)
+        if src is not None and r.random() < 0.7:
+            self.mutate_source(src)
 
     def run(self):
         guard = 0
@@ -226,7 +1054,8 @@ class Gen:
 
 def random_history(rng, maxlen):
     length = rng.choice([maxlen // 4, maxlen // 2, maxlen, maxlen])
-    return Gen(rng, max(4, length)).run()
+    kinds = rng.choice(["vmast", "vmast", "vmast", "v", "va", "vm", "mst", "st", "a"])
+    return Gen(rng, max(4, length), kinds).run()
 
 
 # ------------------------------------------------------------------ directed matrix
@@ -261,291 +1090,178 @@ def sources(n):
 
 
 def directed():
-    """every kind of target x every kind of source x every form of assignment / link / release, each followed by
-    changes of the source, the end of the external memory, a store through the target and an early destruction"""
+    """rank-1 passive arrays: every kind of target x every kind of source x every form of assignment / link / release,
+    each followed by changes of the source, the end of the external memory, a store through the target and an early
+    destruction"""
     out = []
     tail = ["w 2 0 -9", "xw 8 0 -8", "w 1 0 77", "w 11 1 -7", "xend 8", "del 2", "w 1 1 78", "xend 9", "del 11", "del 10"]
     for tname, tp in TARGETS.items():
         for n in (3, 2):
             for sname, sp in sources(n).items():
-                for form in ("ac", "am", "amfn", "amdup", "link"):
+                for form in ("ac", "am", "amfn", "amdup", "link", "stdswp", "swp"):
                     out.append(tp + sp + ["%s 1 2" % form] + tail)
                     out.append(tp + sp + ["%s 2 1" % form] + tail)
-                for form in ("acsl", "amsl", "linksl"):
+                for form in ("acsl", "amsl", "linksl", "amfnsl", "amfnvsl"):
                     out.append(tp + sp + ["%s 1 2 0 %d 1" % (form, n - 1)] + tail)
                     out.append(tp + sp + ["%s 1 2 0 %d 2" % (form, n - 1)] + tail)
+                out.append(tp + sp + ["amsum 1 2 2"] + tail)
+                out.append(tp + sp + ["sum 3 1 2", "w 3 0 4"] + tail)
             out.append(tp + ["xnew 8 5 300", "amext 1 8 1 %d" % n] + tail)
+            out.append(tp + ["xnew 8 5 300", "amextfn 1 8 1 %d" % n] + tail)
             out.append(tp + ["fnew 8 300", "amfix 1 8 0 %d" % (n - 1)] + tail)
             out.append(tp + ["amfresh 1 %d 60" % n] + tail)
-        for selfop in ("ac 1 1", "am 1 1", "amfn 1 1", "amdup 1 1", "link 1 1", "amsl 1 1 0 1 1", "acsl 1 1 1 2 1", "linksl 1 1 0 1 1"):
+        for selfop in ("ac 1 1", "am 1 1", "amfn 1 1", "amdup 1 1", "link 1 1", "amsl 1 1 0 1 1", "acsl 1 1 1 2 1", "linksl 1 1 0 1 1",
+                       "swp 1 1", "stdswp 1 1", "amsum 1 1 1", "amfnvsl 1 1 0 1 1"):
             out.append(tp + [selfop] + tail)
-        for op in ("clr 1", "rs 1 2 0", "rs 1 0 0", "rs 1 -1 0", "rsi 1 -3 0", "rsi 1 4 9", "del 1", "fnrs 1 2", "fnw 1 0 5",
-                   "cp 3 1", "cpc 3 1", "cpm 3 1", "sl 3 1 0 1 1", "soft 3 1"):
+        for op in ("clr 1", "rs 1 2 0", "rs 1 0 0", "rs 1 -1 0", "rsi 1 -3 0", "rsi 1 4 9", "del 1", "fnrs 1 2", "fnrs 1 -1", "fnw 1 0 5",
+                   "cp 3 1", "cpc 3 1", "cpm 3 1", "sl 3 1 0 1 1", "soft 3 1", "fnsl 3 1 0 1 1", "fnvsl 3 1 0 1 1", "vpush 3 1",
+                   "rsh 3 1 1 3", "rsh 3 1 3 1"):
             out.append(tp + [op, "w 1 0 5", "w 3 0 6", "w 10 1 7", "del 10", "w 1 1 8", "w 3 1 9", "xend 9", "del 1", "w 3 0 1"])
     return out
 
 
-# ------------------------------------------------------------------ parsing the observation line
-OBJ_RE = re.compile(r"(\d+)\(st=(\S+) nl=(\S+) at=(\S+) L=(\S+) len=(\d+)(?: str=(-?\d+) v=(\S+))?\)")
-EXT_RE = re.compile(r"X(\d+):([01]):(\S*)")
+# subjects of every kind: handle 1 is the object the request is made on (6 / 3x3 / 3 elements where it has any)
+def subjects(kd):
+    if kd == "v":
+        return {
+            "owner": ["new 1 6 1"], "owner_shared": ["new 1 6 1", "cp 10 1"],
+            "view": ["new 10 8 1", "sl 1 10 1 6 1"], "view_parent_gone": ["new 10 8 1", "sl 1 10 1 6 1", "del 10"],
+            "strided_view": ["new 10 12 1", "sl 1 10 0 10 2"], "soft": ["new 10 6 1", "soft 1 10"],
+            "extview": ["xnew 9 8 5", "ext 1 9 1 6"], "row_of_matrix": ["newm 10 3 6 1", "idx 1 10 1"],
+            "in_vector": ["new 10 6 1", "vpush 1 10"],
+        }
+    if kd == "a":
+        return {
+            "owner": ["newa 1 6 1"], "owner_shared": ["newa 1 6 1", "cp 10 1"],
+            "view": ["newa 10 8 1", "sl 1 10 1 6 1"], "view_parent_gone": ["newa 10 8 1", "sl 1 10 1 6 1", "del 10"],
+            "soft": ["newa 10 6 1", "soft 1 10"], "function_result": ["newfna 1 6 1"],
+        }
+    if kd == "m":
+        return {
+            "owner": ["newm 1 3 3 1"], "owner_shared": ["newm 1 3 3 1", "cpc 10 1"],
+            "view": ["newm 10 5 5 1", "sub 1 10 1 3 1 0 4 2"], "view_parent_gone": ["newm 10 4 4 1", "sod 1 10 1 3", "del 10"],
+            "transposed": ["newm 10 3 3 1", "tr 1 10"], "reshaped": ["new 10 9 1", "rsh 1 10 3 3"],
+            "soft": ["newm 10 3 3 1", "soft 1 10"],
+        }
+    sfx = kd
+    return {
+        "owner": ["new%s 1 3 1" % sfx], "owner_shared": ["new%s 1 3 1" % sfx, "cp 10 1"],
+        "view": ["new%s 10 5 1" % sfx, "sod 1 10 1 3"], "view_parent_gone": ["new%s 10 5 1" % sfx, "sod 1 10 2 4", "del 10"],
+        "soft": ["new%s 10 3 1" % sfx, "soft 1 10"],
+    }
 
 
-class O:
-    __slots__ = ("st", "nl", "at", "alloc", "off", "L", "len", "str", "v")
-
-    def struct(self):
-        return (self.st, self.at, self.len, self.str)
-
-
-def parse(line):
-    """-> (status, n, {handle: O}, {ext: (live, vals)}) or None"""
-    parts = line.split(" |")
-    if len(parts) != 4 or not parts[1].startswith(" n="):
-        return None
-    try:
-        n = int(parts[1][3:])
-        objs = {}
-        txt = parts[2]
-        cnt = 0
-        for m in OBJ_RE.finditer(txt):
-            o = O()
-            o.st, o.nl, o.at, o.L = m.group(2), m.group(3), m.group(4), m.group(5)
-            o.len = int(m.group(6))
-            o.str = int(m.group(7)) if m.group(7) is not None else None
-            v = m.group(8)
-            o.v = None if v is None else ("!" if v == "!" else [int(t) for t in v.split(",")])
-            if o.at in ("0", "?"):
-                o.alloc, o.off = (None if o.at == "0" else "?"), 0
-            else:
-                a, f = o.at.split("+")
-                o.alloc, o.off = a, int(f)
-            objs[int(m.group(1))] = o
-            cnt += 1
-        if cnt != txt.count("("):
-            return None
-        exts = {}
-        for m in EXT_RE.finditer(parts[3]):
-            exts[int(m.group(1))] = (m.group(2) == "1", [int(t) for t in m.group(3).split(",")] if m.group(3) else [])
-        return parts[0], n, objs, exts
-    except Exception:
-        return None
+# requests that MUST be rejected (3 = a non-empty target of the result's kind where one is needed, 5 = an empty array)
+def rejects(kd):
+    if kd in "va":
+        new = "new" if kd == "v" else "newa"
+        out = [["sl 2 1 4 1 1"], ["sl 2 1 5 0 1"], ["sl 2 1 5 1 2"], ["fnsl 2 1 4 1 1"], ["fnvsl 2 1 5 2 1"],
+               ["%s 3 2 0" % new, "linksl 3 1 4 1 1"], ["%s 3 2 0" % new, "amsl 3 1 4 1 1"], ["%s 3 2 0" % new, "acsl 3 1 5 1 1"],
+               ["newd%s 3" % kd.replace("v", ""), "amsl 3 1 4 2 1"], ["%s 3 2 0" % new, "amfnvsl 3 1 4 1 1"],
+               ["%s 3 2 0" % new, "amfnsl 3 1 5 3 1"],
+               ["rs 1 -1 0"], ["rsi 1 -2 0"], ["fnrs 1 -1"], ["newd%s 5" % kd.replace("v", ""), "link 1 5"],
+               ["%s 6 4 0" % new, "ac 1 6"], ["%s 6 4 0" % new, "am 1 6"], ["%s 6 4 0" % new, "amdup 1 6"],
+               ["%s 6 4 0" % new, "amsum 1 1 6"], ["%s 6 4 0" % new, "sum 2 1 6"], ["%s 6 4 0" % new, "stdswp 1 6"],
+               ["%s 2 -1 0" % new], ["newfn%s 2 -2 0" % kd.replace("v", "")]]
+        if kd == "v":
+            out += [["rsh 2 1 4 2"], ["rsh 2 1 -2 -3"], ["rsh 2 1 0 6"], ["rsh 2 1 -6 -1"], ["newm 4 2 2 0", "linkrsh 4 1 -1 -6"],
+                    ["newm 4 2 3 0", "amrsh 4 1 -3 -2"], ["xnew 7 4 0", "ext 2 7 1 -1"], ["xnew 7 4 0", "extfn 2 7 0 -2"],
+                    ["xnew 7 4 0", "amext 1 7 1 -1"], ["xnew 7 4 0", "amextfn 1 7 1 2"]]
+        return out
+    if kd == "m":
+        return [["diag 2 1 4"], ["diag 2 1 -5"], ["new 3 2 0", "linkdiag 3 1 4"], ["new 3 2 0", "amdiag 3 1 7"], ["newd 3", "acdiag 3 1 -4"],
+                ["sod 2 1 1 3"], ["sod 2 1 2 1"], ["sod 2 1 -1 1"], ["newm 4 2 2 0", "linksod 4 1 0 5"], ["newm 4 2 2 0", "amsod 4 1 2 0"],
+                ["row 2 1 0 2 0 1"], ["col 2 1 2 0 1 1"], ["sub 2 1 2 0 1 0 2 1"], ["sub 2 1 0 2 1 2 0 1"], ["sub 2 1 2 0 1 2 0 1"],
+                ["new 3 2 0", "linkrow 3 1 1 2 0 1"], ["new 3 2 0", "amcol 3 1 2 0 1 0"],
+                ["perm 2 1 0 0"], ["perm 2 1 1 2"], ["perm 2 1 -1 0"], ["perm 2 1 1 1"],
+                ["rs2 1 2 -1 0"], ["rs2 1 -1 2 0"], ["rsi2 1 0 -1 0"], ["rsi2 1 -1 0 0"], ["fnrs 1 -1"],
+                ["newm 7 2 3 0", "ac 1 7"], ["newm 7 2 3 0", "am 1 7"], ["newm 7 2 3 0", "stdswp 1 7"],
+                ["newm 7 2 3 0", "diag 2 7 0"], ["newm 7 2 3 0", "sod 2 7 0 1"], ["newm 7 2 3 0", "new 3 2 0", "linkdiag 3 7 0"],
+                ["newm 2 -1 2 0"], ["newm 2 2 -2 0"], ["newfnm 2 -1 0"], ["newdm 5", "link 1 5"]]
+    sfx = kd
+    out = [["diag 2 1 4"], ["diag 2 1 -5"], ["new 3 2 0", "linkdiag 3 1 4"], ["new 3 2 0", "amdiag 3 1 -4"],
+           ["sod 2 1 1 3"], ["sod 2 1 2 1"], ["sod 2 1 -1 1"], ["new%s 4 2 0" % sfx, "linksod 4 1 0 5"], ["new%s 4 2 0" % sfx, "amsod 4 1 1 0"],
+           ["rs2 1 2 3 0"], ["rsi2 1 3 2 0"], ["rs 1 -1 0"], ["rsi 1 -2 0"], ["rs2 1 -1 -1 0"], ["fnrs 1 -1"],
+           ["new%s 7 2 0" % sfx, "ac 1 7"], ["new%s 7 2 0" % sfx, "am 1 7"], ["new%s 7 2 0" % sfx, "stdswp 1 7"],
+           ["new%s 2 -1 0" % sfx], ["newfn%s 2 -2 0" % sfx], ["newd%s 5" % sfx, "link 1 5"]]
+    if kd == "t":
+        out += [["diag 2 1 2"], ["diag 2 1 -2"], ["new 3 2 0", "linkdiag 3 1 2"]]
+    return out
 
 
-# ------------------------------------------------------------------ oracle (implementation output only)
-def oracle(hist, lines):
-    """hist: ops without the leading reset; lines: implementation output for them.  -> (step, message) or None"""
-    prev_objs, prev_exts, prev_n = {}, {}, 0
-    seen_labels = set()
-    soft = set()          # handles that are deliberately uncounted views (soft links and what was made from them)
-    for i, (op, line) in enumerate(zip(hist, lines)):
-        w = op.split()
-        c = w[0]
-        if line in ("bad-op", "skip-dangling"):
-            continue
-        if line.startswith("fault"):
-            return i, "implementation driver printed %r" % line
-        p = parse(line)
-        if p is None:
-            return i, "unparsable observation %r" % line[:200]
-        status, n, objs, exts = p
-        a = [int(t) for t in w[1:]]
-        if status.startswith("exc:"):
-            if status in ("exc:invalid_operation", "exc:other", "exc:index_out_of_bounds"):
-                return i, "unexpected exception %s (reference count underflow?)" % status
-            # a thrown exception leaves every object, count and value as it was
-            if set(objs) != set(prev_objs) or any(objs[k].struct() != prev_objs[k].struct() or objs[k].v != prev_objs[k].v
-                                                  or objs[k].nl != prev_objs[k].nl for k in objs):
-                return i, "%s threw %s but the arrays are not as they were before the call" % (op, status[4:])
-            if n != prev_n:
-                return i, "%s threw %s but n_storage_objects() changed" % (op, status[4:])
-        elif status != "ok":
-            return i, "unknown status %r" % status
-        # ---------------- global rules, every line
-        cnt = {}
-        for k, o in objs.items():
-            if o.st not in ("-",):
-                cnt[o.st] = cnt.get(o.st, 0) + 1
-        for k, o in objs.items():
-            if o.alloc == "?":
-                return i, "array %d: data() points into no known allocation" % k
-            if o.st == "?" or o.nl == "!":
-                return i, "array %d refers to a Storage object that has been deleted" % k
-            if o.st != "-":
-                if o.alloc != o.st:
-                    return i, "array %d holds storage %s but its data() points at %s" % (k, o.st, o.at)
-                if o.L != "1":
-                    return i, "array %d holds storage %s whose data have been released" % (k, o.st)
-                if int(o.nl) != cnt[o.st]:
-                    return i, "storage %s: n_links()=%s but %d live arrays refer to it" % (o.st, o.nl, cnt[o.st])
-        if n != len(cnt):
-            return i, "n_storage_objects()=%d but %d storages are referred to by live arrays (leak or double release)" % (n, len(cnt))
-        # ---------------- frame: who may have changed structurally
-        targets = set()
-        if status == "ok":
-            if c in CREATE_OPS:
-                targets = {a[0]}
-            elif c in ("link", "linksl", "rs", "rsi", "clr", "del") or c in ASSIGN_OPS:
-                targets = {a[0]}
-                if c == "am":
-                    targets.add(a[1])
-        if c == "end":
-            if objs or n != 0:
-                return i, "after destroying every array %d arrays / %d storages remain" % (len(objs), n)
-            prev_objs, prev_exts, prev_n = objs, exts, n
-            continue
-        expect_handles = set(prev_objs)
-        if status == "ok" and c in CREATE_OPS:
-            expect_handles.add(a[0])
-        if status == "ok" and c == "del":
-            expect_handles.discard(a[0])
-        if set(objs) != expect_handles:
-            return i, "live handles %s, expected %s" % (sorted(objs), sorted(expect_handles))
-        for k, o in objs.items():
-            if k not in targets and k in prev_objs and o.struct() != prev_objs[k].struct():
-                return i, "%s changed array %d (%s -> %s), which it does not name as a target" % (op, k, prev_objs[k].struct(), o.struct())
-        # ---------------- per-operation rules
-        if status == "ok":
-            msg = op_rule(c, a, objs, prev_objs, exts, prev_exts, seen_labels, soft)
-            if msg:
-                return i, msg
-            # values: a change shows only through views of the allocation that was written
-            written = written_allocs(c, a, objs, prev_objs)
-            for k, o in objs.items():
-                if k in prev_objs and k not in targets and o.v != prev_objs[k].v and o.v != "!" and prev_objs[k].v != "!":
-                    if o.alloc not in written:
-                        return i, "%s changed the values seen by array %d (%s), which lives in another allocation than the one written" % (op, k, o.at)
-        soft &= set(objs)
-        for k, o in objs.items():
-            if o.st != "-":
-                seen_labels.add(o.st)
-            elif o.alloc is not None and o.alloc.startswith("S") and k not in soft:
-                # only soft links (and what was made from them) may look into library storage without holding it
-                return i, "array %d has no storage yet its data() points into library storage %s (live=%s)" % (k, o.alloc, o.L)
-        prev_objs, prev_exts, prev_n = objs, exts, n
-    return None
+def directed_rejects():
+    """every kind of subject x every request that must be rejected (once and three times over), then the subject is
+    used, copied, and everything destroyed: a rejected request must leave every count, object and value as it was,
+    and the data must still be released exactly once"""
+    out = []
+    for kd in "vamst":
+        w = "w 1 0 5"
+        for sname, sp in subjects(kd).items():
+            for rj in rejects(kd):
+                pre, req = rj[:-1], rj[-1]
+                out.append(sp + pre + [req, w, "cp 20 1", "del 1", "w 20 1 6"])
+                out.append(sp + pre + [req, req, "del 10", req, w, "clr 1"])
+    return out
 
 
-def written_allocs(c, a, objs, prev):
-    if c in ("w", "fnw"):
-        return {prev[a[0]].alloc}
-    if c in ("xw", "xend"):
-        return {"X%d" % a[0]}
-    if c in ASSIGN_OPS:
-        return {objs[a[0]].alloc} if a[0] in objs else set()
-    return set()
+# valid requests of every kind (2 = new handle)
+def valid_views(kd):
+    if kd in "va":
+        out = [["sl 2 1 1 4 1"], ["sl 2 1 0 5 2"], ["sl 2 1 3 2 1"], ["sl 2 1 5 2 2"], ["fnsl 2 1 1 3 1"], ["fnvsl 2 1 0 4 2"]]
+        if kd == "v":
+            out += [["rsh 2 1 2 3"], ["rsh 2 1 6 1"], ["rsh 2 1 1 6"]]
+        return out
+    if kd == "m":
+        return [["row 2 1 1 0 2 1"], ["row 2 1 2 0 2 2"], ["col 2 1 0 2 1 1"], ["col 2 1 1 0 1 2"], ["sub 2 1 0 1 1 1 2 1"],
+                ["sub 2 1 0 2 2 0 2 2"], ["sub 2 1 2 1 1 0 2 1"], ["idx 2 1 0"], ["idx 2 1 2"], ["tr 2 1"], ["diag 2 1 0"], ["diag 2 1 1"],
+                ["diag 2 1 -2"], ["sod 2 1 0 1"], ["sod 2 1 1 2"], ["sod 2 1 2 2"], ["perm 2 1 1 0"], ["perm 2 1 0 1"]]
+    out = [["diag 2 1 0"], ["diag 2 1 1"], ["diag 2 1 -1"], ["sod 2 1 0 1"], ["sod 2 1 1 2"], ["sod 2 1 0 2"], ["sod 2 1 1 1"]]
+    if kd == "s":
+        out += [["diag 2 1 2"], ["diag 2 1 -2"]]
+    return out
 
 
-def slice_of(vals, lo, hi, st):
-    n = (hi + st - lo) // st
-    return [vals[lo + j * st] for j in range(n)]
+def result_kind(kd, req):
+    fn = split_cmd(req.split()[0])[1]
+    return kd if fn in ("sl", "sod") else "v" if fn in ("row", "col", "idx", "diag") else "m"
 
 
-def op_rule(c, a, objs, prev, exts, prev_exts, seen_labels, soft):
-    """rules for a successful operation; returns a message or None"""
-    def fresh_owner(o, n, what):
-        if n == 0:
-            if o.alloc is not None or o.st != "-" or o.len != 0:
-                return "%s of extent 0 must leave an empty array without data" % what
-            return None
-        if o.st == "-" or o.st in seen_labels or o.nl != "1" or o.off != 0 or o.len != n or o.str != 1:
-            return "%s must own a new unshared storage (got st=%s nl=%s at=%s len=%d)" % (what, o.st, o.nl, o.at, o.len)
-        return None
-
-    if c == "new":
-        return fresh_owner(objs[a[0]], a[1], "new array")
-    if c in ("rs", "rsi"):
-        soft.discard(a[0])
-        return fresh_owner(objs[a[0]], a[1], "resized array")
-    if c in ("newd", "clr"):
-        o = objs[a[0]]
-        soft.discard(a[0])
-        if o.alloc is not None or o.st != "-" or o.len != 0:
-            return "%s must give an empty array with no data and no storage" % c
-        return None
-    if c in ("ext", "fsl"):
-        o = objs[a[0]]
-        off, n = (a[2], a[3]) if c == "ext" else (a[2], a[3] - a[2] + 1)
-        if o.st != "-" or o.at != "X%d+%d" % (a[1], off) or o.len != n:
-            return "array over external memory must point at it and hold no storage (got st=%s at=%s len=%d)" % (o.st, o.at, o.len)
-        return None
-    if c in ("cp", "cpc", "cpm", "soft", "sl"):
-        o, b = objs[a[0]], prev[a[1]]
-        if c == "sl":
-            lo, hi, st = a[2], a[3], a[4]
-            want = (b.alloc, b.off + lo * b.str, (hi + st - lo) // st)
-        else:
-            want = (b.alloc, b.off, b.len)
-        if (o.alloc, o.off, o.len) != want:
-            return "%s: new array is at %s len %d, the source's data are at %s len %d" % (c, o.at, o.len, b.at, b.len)
-        if o.st != ("-" if c == "soft" else b.st):
-            return "%s: new array holds storage %s, source holds %s" % (c, o.st, b.st)
-        if c == "soft" and o.alloc is not None and o.alloc.startswith("S"):
-            soft.add(a[0])
-        if c != "soft" and a[1] in soft and o.st == "-":
-            soft.add(a[0])
-        return None
-    if c in ("link", "linksl"):
-        o, b = objs[a[0]], prev[a[1]]
-        if c == "link" and a[0] == a[1]:
-            return None if o.alloc is None and o.st == "-" and o.len == 0 else "a.link(a) must leave a cleared"
-        if c == "linksl":
-            lo, hi, st = a[2], a[3], a[4]
-            want = (b.alloc, b.off + lo * b.str, (hi + st - lo) // st, b.st)
-        else:
-            want = (b.alloc, b.off, b.len, b.st)
-        if (o.alloc, o.off, o.len, o.st) != want:
-            return "%s: target is at %s (st=%s), the source's data are at %s (st=%s)" % (c, o.at, o.st, b.at, b.st)
-        if a[1] in soft and o.st == "-":
-            soft.add(a[0])
-        else:
-            soft.discard(a[0])
-        return None
-    if c in ("w", "fnw"):
-        o = objs[a[0]]
-        if o.v != "!" and o.v[a[1]] != a[2]:
-            return "%s: element reads %d after the write" % (c, o.v[a[1]])
-        return None
-    if c in ASSIGN_OPS:
-        o, o0 = objs[a[0]], prev[a[0]]
-        if c == "am" and a[0] != a[1] and objs[a[1]].struct() not in (prev[a[1]].struct(), o0.struct()):
-            return "move assignment left its source neither untouched nor with the target's old data"
-        if c == "am" and a[0] != a[1] and a[0] in soft and objs[a[1]].struct() == o0.struct() != prev[a[1]].struct():
-            soft.add(a[1])                               # swap: the source now is the (empty) uncounted view
-        # value of the right-hand side before the statement
-        if c in ("ac", "am", "amfn", "amdup"):
-            src = prev[a[1]].v if prev[a[1]].len else []
-        elif c in ("acsl", "amsl"):
-            sv = prev[a[1]].v
-            src = "!" if sv == "!" else slice_of(sv, a[2], a[3], a[4])
-        elif c == "amext":
-            src = prev_exts[a[1]][1][a[2]:a[2] + a[3]]
-        elif c == "amfix":
-            src = prev_exts[a[1]][1][a[2]:a[3] + 1]
-        else:
-            src = [a[2] + j for j in range(a[1])]
-        have = o.v if o.len else []
-        if src != "!" and have != src:
-            return "%s: target reads %s, the right-hand side was %s" % (c, have, src)
-        if o.struct() == o0.struct():
-            return None                                  # stored in place (or nothing to do)
-        if o.len == 0 and o.alloc is None and o.st == "-":
-            soft.discard(a[0])
-            return None                                  # empty = empty
-        # the target moved: it must now own an unshared library storage
-        soft.discard(a[0])
-        if o.st == "-" or o.alloc != o.st or o.nl != "1":
-            return ("after %s the target does not own its data: it points at %s (storage %s, n_links %s)"
-                    % (c, o.at, o.st, o.nl))
-        if o.st in seen_labels:
-            # not new: only a move from an lvalue may hand over an existing storage, and then it is a swap
-            if c != "am" or prev[a[1]].st != o.st or prev[a[1]].nl != "1":
-                return "after %s the target holds storage %s, which already existed and was not the source's own" % (c, o.st)
-            if objs[a[1]].struct() != o0.struct():
-                return "move assignment took the source's storage without handing the target's old data to the source"
-        if o0.len != 0 and not (o0.st != "-" and o0.nl == "1"):
-            return "%s replaced the data of a non-empty target that was a view or shared (must be stored in place)" % c
-        return None
-    return None
+def directed_kinds():
+    """every kind of subject x every valid view x every way of using it (held, linked, copy- and move-assigned to empty,
+    owning and shared targets), then writes through both, the parent destroyed first; plus copy construction, soft
+    link, std::vector growth, functions and swaps on every subject"""
+    out = []
+    mk = {"v": "new 3 %d 0", "a": "newa 3 %d 0", "m": "newm 3 %d %d 0", "s": "news 3 %d 0", "t": "newt 3 %d 0"}
+    for kd in "vamst":
+        for sname, sp in subjects(kd).items():
+            for vq in valid_views(kd):
+                req = vq[0]
+                w = req.split()
+                rk = result_kind(kd, req)
+                tailv = ["w 2 0 41", "w 1 0 42", "del 10", "del 1", "w 2 0 43"]
+                out.append(sp + [req] + tailv)
+                args = " ".join(w[3:])
+                fn = split_cmd(w[0])[1] if split_cmd(w[0])[0] == "" else None
+                if fn is None:
+                    continue
+                sfx = SFX_OF[rk]
+                for tgt in (["newd%s 3" % sfx], ["newd%s 3" % sfx, "cp 4 3"]):
+                    for form in ("link", "am", "ac"):
+                        out.append(sp + tgt + ["%s%s 3 1 %s" % (form, fn, args), "w 1 0 44", "w 3 0 45", "del 10", "del 1", "w 3 0 46"])
+                # a non-empty target: first made a deep copy of the view so that the extents match, then shared
+                out.append(sp + ["newd%s 3" % sfx, "ac%s 3 1 %s" % (fn, args), "cp 4 3", "w 1 0 47", "am%s 3 1 %s" % (fn, args),
+                                 "ac%s 4 1 %s" % (fn, args), "link%s 4 1 %s" % (fn, args), "del 1", "del 10", "w 4 0 48"])
+            newsfx = SFX_OF[kd]
+            for ops in (["cp 2 1", "cpc 3 1", "cpm 4 1"], ["soft 2 1", "cp 3 2", "del 1", "del 10"],
+                        ["vpush 2 1", "vpush 3 1", "vpush 4 2", "vpush 5 1", "vpush 6 3", "w 4 0 9", "vpop 6", "del 1", "vpush 7 5", "vpop 7", "vpop 5"],
+                        ["newd%s 2" % newsfx, "am 2 1", "am 1 2", "ac 2 1", "amfn 2 1", "amdup 1 2"],
+                        ["newfn%s 2 3 7" % newsfx, "stdswp 1 2", "w 1 0 5", "stdswp 2 1", "stdswp 1 1"],
+                        ["newfn%s 2 3 7" % newsfx, "swp 1 2", "w 1 0 5", "swp 2 1", "swp 1 1", "newd%s 3" % newsfx, "swp 1 3", "swp 3 1"],
+                        ["newd%s 2" % newsfx, "stdswp 1 2", "stdswp 1 2", "cp 3 1", "stdswp 1 2"],
+                        ["fnw 1 0 5", "fnrs 1 2", "fnrs 1 0", "amfresh 1 3 9", "newd%s 2" % newsfx, "amfresh 2 2 1", "amfresh 1 2 5"],
+                        ["clr 1", "w 10 0 1"], ["rsi 1 2 5", "w 10 0 1"], ["rs2 1 2 2 5", "w 10 0 1"], ["link 1 1"], ["ac 1 1", "am 1 1"]):
+                out.append(sp + ops + ["w 1 0 3", "del 10", "w 2 0 4", "del 1"])
+    return out
 
 
 # ------------------------------------------------------------------ running
@@ -591,6 +1307,13 @@ def assess(h, il, rc, err):
     return bad
 
 
+def op_class(c):
+    cl = classify(c)
+    if cl[0] == "view":
+        return "%s<view:%s>" % (cl[1], cl[2])
+    return c
+
+
 def work(args):
     """one chunk: model + implementation + oracle.  Top-level so that it can run in a process pool."""
     exe, hists = args
@@ -599,14 +1322,20 @@ def work(args):
     impl_lines, rc, err = vcheck.run_impl(exe, [], text)
     impl = split_lines(impl_lines, hists)
     res = []
-    stats = {"cut": cut, "ops": {}, "status": {}}
+    stats = {"cut": cut, "ops": {}, "status": {}, "rejected": {}, "kinds": {}}
     for h, il, ml in zip(hists, impl, model):
         hh = h + ["end"]
         for op, l in zip(hh, il):
-            c = op.split()[0]
+            c = op_class(op.split()[0])
             stats["ops"][c] = stats["ops"].get(c, 0) + 1
             s = l.split(" |")[0]
             stats["status"][s] = stats["status"].get(s, 0) + 1
+            if s.startswith("exc:"):
+                key = "%s %s" % (c, s[4:])
+                stats["rejected"][key] = stats["rejected"].get(key, 0) + 1
+        if il:
+            for kch in re.findall(r"\(K=(\w)", " ".join(il[-3:-1])):
+                stats["kinds"][kch] = stats["kinds"].get(kch, 0) + 1
         bad = assess(h, il, rc, err)
         if bad is not None:
             res.append((h, "oracle", bad[0], bad[1]))
@@ -642,11 +1371,20 @@ def shrink(exe, h, want_oracle):
     return vcheck.ddmin(list(h), fails, max_tests=250)
 
 
+def nontrivial(h):
+    k = 0
+    for op in h:
+        c = op.split()[0]
+        if is_assign(c) or c in ("link", "cp", "cpc", "cpm", "clr", "rs", "rsi", "rs2", "rsi2", "del", "swp", "stdswp", "vpush", "vpop") \
+                or classify(c)[0] == "view":
+            k += 1
+    return k >= 2
+
+
 def judge(ctx, exe, results, label):
     nbad = 0
     for h, kind, k, msg in results:
-        nontriv = sum(1 for op in h if op.split()[0] in ASSIGN_OPS + ("link", "linksl", "sl", "cp", "cpc", "cpm", "clr", "rs", "rsi", "del")) >= 2
-        ctx.count_case(tuple(h), nontrivial=nontriv, sample={"history": h[:10], "result": kind})
+        ctx.count_case(tuple(h), nontrivial=nontrivial(h), sample={"history": h[:10], "result": kind})
         if kind == "oracle":
             nbad += 1
             key = re.sub(r"-?\d+", "#", msg.split(":")[0])[:70]      # one report per kind of failure
@@ -677,7 +1415,8 @@ def run_hists(ctx, exe, hists, label, workers):
     chunk = max(1, min(400, (len(hists) + workers - 1) // workers))
     jobs = [(exe, hists[i:i + chunk]) for i in range(0, len(hists), chunk)]
     results = []
-    agg = ctx.notes.setdefault("distribution", {"cut_at_stale_soft_link": 0, "ops": {}, "status": {}})
+    agg = ctx.notes.setdefault("distribution", {"cut_at_stale_soft_link": 0, "ops": {}, "status": {}, "rejected": {},
+                                                "kinds_alive_near_end": {}})
     if workers > 1 and len(jobs) > 1:
         with ProcessPoolExecutor(max_workers=workers) as ex:
             outs = list(ex.map(work, jobs))
@@ -686,9 +1425,9 @@ def run_hists(ctx, exe, hists, label, workers):
     for res, st in outs:
         results += res
         agg["cut_at_stale_soft_link"] += st["cut"]
-        for key in ("ops", "status"):
+        for key, dst in (("ops", "ops"), ("status", "status"), ("rejected", "rejected"), ("kinds", "kinds_alive_near_end")):
             for k, v in st[key].items():
-                agg[key][k] = agg[key].get(k, 0) + v
+                agg[dst][k] = agg[dst].get(k, 0) + v
     return judge(ctx, exe, results, label)
 
 
@@ -721,33 +1460,43 @@ def run(ctx, replay):
     exe = vbuild.build("storage", SRC)
     ctx.pending = []
     ctx.reported = set()
-    workers = min(12, os.cpu_count() or 4)
+    workers = min(6, os.cpu_count() or 4)
     if replay:
         r = json.load(open(replay))
         h = [op for op in r["history"] if op not in ("reset", "end")]
         run_hists(ctx, exe, [h], "replay", 1)
         report_pending(ctx, fails)
         return
-    nhist, maxlen = (2000, 40) if ctx.tier == "quick" else (50000, 200)
+    nhist, maxlen = (2500, 40) if ctx.tier == "quick" else (50000, 160)
     corpus = load_corpus()
     ctx.notes["corpus_cases"] = len(corpus)
     bad = run_hists(ctx, exe, corpus, "corpus", 1)
-    dm = directed()
-    ctx.notes["directed_cases"] = len(dm)
+    dm, dr, dk = directed(), directed_rejects(), directed_kinds()
+    ctx.notes["directed_cases"] = {"rank1_assign_link_release": len(dm), "rejected_requests": len(dr), "kinds_views_functions": len(dk)}
+    bad += run_hists(ctx, exe, dr, "directed-rejects", workers)
+    bad += run_hists(ctx, exe, dk, "directed-kinds", workers)
     bad += run_hists(ctx, exe, dm, "directed", workers)
     hists = [random_history(ctx.rng, maxlen) for _ in range(nhist)]
     bad += run_hists(ctx, exe, hists, "default", workers)
-    ctx.cov["rule"] = ("life-cycle histories over a pool of Array<1,int>, external blocks and FixedArray<int,false,4>: %d random histories of up "
-                       "to %d operations (+%d corpus cases, +%d directed cases: every kind of target x source x form of "
-                       "assignment/link/release, each followed by changes of the source), ~28%% assignments (two thirds from temporaries: slices, arrays over external "
-                       "memory, FixedArray slices, function results) usually followed by a change of the source, views and soft links "
-                       "outliving parents, clear/resize of shared data, self-assignment/self-link, empty arrays, negative resize; every "
-                       "history ends by destroying all arrays.  non-trivial = at least two sharing/assigning/releasing operations; "
-                       "distinct = different op list" % (nhist, maxlen, len(corpus), len(dm)))
+    ctx.cov["rule"] = ("life-cycle histories over a pool of Array<1,int>, Array<2,int>, active Array<1,double>, symmetric and tridiagonal "
+                       "SpecialMatrix<int>, one std::vector per class, external blocks and FixedArray<int,false,4>: %d random histories of up "
+                       "to %d operations (+%d corpus cases, +%d directed cases: rank-1 target x source x form of assignment/link/release; "
+                       "every kind of subject x every request that must be REJECTED (reversed ranges, diagonals beyond the matrix, wrong or "
+                       "negative reshape, bad sub-matrix bounds, repeated permute dimension, negative / non-square resize and constructors, "
+                       "link to empty, mismatching sizes) once and repeatedly; every kind of subject x every valid view x held / linked / "
+                       "copy- and move-assigned, copy construction, soft link, std::vector growth, by-value parameters, functions returning "
+                       "locals / views / expression results / arrays over external memory, swap and std::swap), ~25%% assignments (two thirds from "
+                       "temporaries) usually followed by a change of the source, 0-35%% of the view requests and a share of the constructor / "
+                       "resize requests of a random history invalid on purpose, views and soft links outliving parents, clear/resize of shared "
+                       "data, self-assignment/self-link; every history ends by destroying all arrays.  non-trivial = at least two "
+                       "sharing/assigning/releasing operations; distinct = different op list; see distribution.ops / .status / .rejected for "
+                       "the measured mix" % (nhist, maxlen, len(corpus), len(dm) + len(dr) + len(dk)))
     ctx.cov["exhaustive"] = False
     ctx.assumptions += [
-        "rank-1 int arrays; Array<2>, active arrays and SpecialMatrix follow the same Storage protocol but are not driven by this harness",
-        "slices are within the source (the library does not test ranges: C06/C11); a stale soft_link()/external view is the user's "
+        "element type int for the passive classes (Packet<int>::size = 1: rows of Array<2> are not padded), double for the active "
+        "vector; active Array<2>, the other SpecialMatrix engines and ranks above 2 follow the same code but are not driven",
+        "indices address the source (the library does not test them: C06/C11); reversed ranges, diagonals, extents and sub-matrix "
+        "bounds are unrestricted; a stale soft_link()/external view is the user's "
         "responsibility: histories are cut before an operation that would read or write through one (decided by the model, counted "
         "in distribution.cut_at_stale_soft_link)",
         "liveness of library memory is observed through AddressSanitizer's shadow (__asan_address_is_poisoned)",
